@@ -293,3 +293,11 @@ def requested_init(case, out):
 
 def succ_lists(G, idx):
     return gen.adj_lists(G, idx)
+
+
+def zero_delay_at_tmin(case, out):
+    """a neighbour-induced infection at exactly tmin (zero transmission delay; with the scripted dyadic draws this can
+    also come out of `_truncated_exponential_`): the node-history representation records such a node as initially
+    infected, so "the state at tmin" and the S->I change are not observable.  Probability 0 under real draws; such runs
+    are left to C11, which reads infection times from the transmission list."""
+    return any(u is not None and F(t) == F(case["tmin"]) for t, u, v in out.get("transmissions", []))
